@@ -1,6 +1,7 @@
 # -*- coding: utf-8 -*-
 import ast
 import builtins
+import copy
 import functools
 import inspect
 import logging
@@ -1061,9 +1062,16 @@ def register_handler(
     when = Predicate.TRUE if when is None else when
     if isinstance(when, Predicate):
         pred: Predicate = when
+        if (
+            pred.use_raw_node_id != use_raw_node_id
+            and pred is not Predicate.TRUE
+            and pred is not Predicate.FALSE
+        ):
+            # the caller's object may serve other handlers, which want it called the other way
+            pred = copy.copy(pred)
+            pred.use_raw_node_id = use_raw_node_id
     else:
         pred = Predicate(when, use_raw_node_id=use_raw_node_id)  # type: ignore
-    pred.use_raw_node_id = use_raw_node_id
 
     if TraceEvent.opcode in events and sys.version_info < (3, 7):
         raise ValueError("can't trace opcodes on Python < 3.7")
